@@ -632,7 +632,13 @@ pub fn history(mode: &str, idx: u64, rng: &mut Rng, thorough: bool, timeout_ms: 
         "cdt" | "cdtlast" | "split" => {
             let hints: &[&str] = if mode == "cdtlast" { &["last"] } else { &ALL_HINTS };
             let (scalar, kind, hint) = instance(rng, &["cdt"], true, hints);
-            let fam = Fam::choose(rng, &["grid", "grid", "grid", "grid", "line", "circle", "unif", "neardeg", "scaled", "wide"]);
+            // constraint splitting computes intersection points in floating point: only
+            // well-conditioned families are used for it (DESIGN C13)
+            let fam = if mode == "split" {
+                Fam::choose(rng, &["grid", "grid", "grid", "line", "circle", "unif"])
+            } else {
+                Fam::choose(rng, &["grid", "grid", "grid", "grid", "line", "circle", "unif", "neardeg", "scaled", "wide"])
+            };
             let mut ctx = Ctx::new(&scalar, &kind, &hint, timeout_ms);
             ctx.header(idx, &scalar, &hint, mode, &fam.label());
             if rng.chance(150) {
